@@ -140,7 +140,7 @@ func cmdCheck(args []string) int {
 		// not discharged: known finding?
 		var kf *Finding
 		for _, f := range findings.Findings {
-			if f.Property == prop && f.Status == "known" && (f.Obligation == r.Obl.Name || f.Obligation == baseName(r.Obl.Name)) {
+			if (f.Property == prop || r.Obl.Support) && f.Status == "known" && (f.Obligation == r.Obl.Name || f.Obligation == baseName(r.Obl.Name)) {
 				kf = f
 			}
 		}
@@ -170,7 +170,10 @@ func cmdCheck(args []string) int {
 						}
 					}
 					if ok {
-						line := fmt.Sprintf("KNOWN-FINDING: property=%s %s — %s (%s)", prop, kf.Obligation, kf.What, replayed)
+						line := fmt.Sprintf("KNOWN-FINDING: property=%s %s — %s (%s)", kf.Property, kf.Obligation, kf.What, replayed)
+						if kf.Property != prop {
+							line += fmt.Sprintf(" [supporting obligation in a function checked for %s]", prop)
+						}
 						fmt.Println(line)
 						knownList = append(knownList, line)
 					}
@@ -184,6 +187,9 @@ func cmdCheck(args []string) int {
 		failed++
 		path := writeReplay(cfg, prop, r)
 		line := fmt.Sprintf("VIOLATION property=%s replay=%s obligation=%s solver=%s", prop, path, r.Obl.Name, r.Res.Status)
+		if r.Obl.Support {
+			line += " supporting-obligation(assumed-by-" + prop + "-obligations-of-the-function)"
+		}
 		line += " no-failing-input-found"
 		violations = append(violations, line)
 	}
